@@ -293,8 +293,19 @@ def correspond(pid, tier, backend, gen_args, workdir, stats):
     prefix = os.path.join(workdir, "%s-%s" % (backend, "-".join(str(a) for a in gen_args)))
     rc, out = sh([hbv(backend)] + [str(a) for a in gen_args] + [prefix], timeout=7200)
     if rc != 0:
-        raise Violation("harness run %s failed (exit %d): the implementation crashed or aborted" % (gen_args, rc),
-                        "# harness crashed: %s %s\n%s\n" % (backend, gen_args, out[-2000:]), False)
+        # the implementation crashed/aborted: re-run with the crash journal to get the scenario that did it
+        jpath = prefix + ".journal"
+        rc2, out2 = sh([hbv(backend)] + [str(a) for a in gen_args] + [prefix + "-j"], env=dict(ENV, HBV_JOURNAL=jpath), timeout=7200)
+        replay = ""
+        if os.path.exists(jpath):
+            lines = open(jpath).read().split("\n")
+            starts = [i for i, l in enumerate(lines) if l.startswith("scn ")]
+            if starts:
+                replay = "\n".join(l for l in lines[starts[-1]:] if l.strip()) + "\nend\n"
+        tail = (out2 if rc2 != 0 else out)[-1500:]
+        raise Violation("the implementation crashed or aborted (exit %d) while executing a generated history (%s %s)" % (rc, backend, gen_args),
+                        "# the last operation of this scenario kills the process (assertion / abort / signal)\n# " +
+                        tail.replace("\n", "\n# ") + "\n" + (replay or "# (no journal)\n"), bool(replay))
     ops, real, model = prefix + ".ops", prefix + ".real", prefix + ".model"
     run_driver(ops, model)
     nlines = sum(1 for _ in open(real))
